@@ -177,10 +177,18 @@ def step (s : St) (w : List String) : St × String :=
     let t0 := if kind = "pndb" then { t0 with db := { t0.db with current := s.ps.nodes } } else t0
     let saved2 := if kind = "pndb" then saved1.map (fun e => (e.1, e.2.1, e.2.2.1, true)) else saved1
     ({ s1 with tries := [(0, 0, t0)], kind0 := kind, saved := saved2 }, "ok " ++ rootStr r)
-  | ["ver", "0", n] =>
-    match findTrie s 0 with
-    | some (_, t) => (setTrie s 0 { t with version := n.toNat! }, "ok")
+  | ["ver", id, n] =>
+    match findTrie s id.toNat! with
+    | some (_, t) => (setTrie s id.toNat! { t with version := n.toNat! }, "ok")
     | none => (s, "bad-op")
+  | "syncinto" :: id :: w :: rest =>
+    match findTrie s id.toNat!, (match rest with | [x] => parseKVs x | _ => some []) with
+    | some (_, t), some kvs =>
+      let donor := kvs.foldl (fun d (p, b) => Verif.Mpt.insert w.toNat! b d p) Node.empty
+      let t1 := t.applyEvents sha3 ((refs donor []).map (fun r => Event.put none r))
+      let t2 := { t1 with tree := donor, root := root sha3 donor }
+      (syncP (setTrie s id.toNat! t2), "ok " ++ rootStr t2.root)
+    | _, _ => (s, "bad-op")
   | "syncfrom" :: w :: rest =>
     match findTrie s 0, (match rest with | [x] => parseKVs x | _ => some []) with
     | some (_, t), some kvs =>
